@@ -184,6 +184,26 @@ def spec_close_position(A):
             'authority_signed': A['position_authority'].signer}
 
 
+def spec_two_hop(A):
+    d = {'authority_signed': A['token_authority'].signer}
+    for n in ('one', 'two'):
+        wp = A['whirlpool_' + n]
+        d[f'vault_{n}_a_is_the_pools'] = eq(A[f'token_vault_{n}_a'].key.t, fld(wp, 'token_vault_a'))
+        d[f'vault_{n}_b_is_the_pools'] = eq(A[f'token_vault_{n}_b'].key.t, fld(wp, 'token_vault_b'))
+        d[f'owner_account_{n}_a_has_the_pools_mint_a'] = eq(fld(A[f'token_owner_account_{n}_a'], 'mint'), fld(wp, 'token_mint_a'))
+        d[f'owner_account_{n}_b_has_the_pools_mint_b'] = eq(fld(A[f'token_owner_account_{n}_b'], 'mint'), fld(wp, 'token_mint_b'))
+        d[f'pool_{n}_writable'] = wp.writable
+    return d
+
+
+def spec_set_reward_emissions(idx):
+    def spec(A):
+        ri = A['whirlpool'].data.get('reward_infos').items[idx]
+        return {'reward_vault_is_the_pools_vault_of_this_reward': eq(A['reward_vault'].key.t, ri.get('vault').t),
+                'authority_signed': A['reward_authority'].signer, 'pool_writable': A['whirlpool'].writable}
+    return spec
+
+
 def tasks():
     return [
         struct_task('collect_fees', 'collect_fees', 'CollectFees', spec_collect_fees(False)),
@@ -196,4 +216,5 @@ def tasks():
         struct_task('swap_v2', 'v2/swap', 'SwapV2', spec_swap(True)),
         struct_task('update_fees_and_rewards', 'update_fees_and_rewards', 'UpdateFeesAndRewards', spec_update_fees),
         struct_task('close_position', 'close_position', 'ClosePosition', spec_close_position),
-    ]
+    ] + [struct_task(f'set_reward_emissions:index{i}', 'set_reward_emissions', 'SetRewardEmissions', spec_set_reward_emissions(i), (i,)) for i in range(3)] + [
+        struct_task(f'set_reward_emissions_v2:index{i}', 'v2/set_reward_emissions', 'SetRewardEmissionsV2', spec_set_reward_emissions(i), (i,)) for i in range(3)]
